@@ -957,9 +957,44 @@ def layout_cases(rng, tier):
     return cases
 
 
+def order_cases():
+    """order-sensitive (associative, NON-commutative) operators over 4..9 distinct elements in 4..8 slices
+    (all partitions non-empty), in more slices than elements and in explicit layouts with empty partitions in
+    between: any regrouping of the partial results that is not a left-to-right fold shows"""
+    cases = []
+    for ln in range(4, 10):
+        kinds = {
+            'str': ([chr(97 + i) for i in range(ln)],
+                    [(A_REDUCE, OP_ADD), (A_FOLD, '', OP_ADD), (A_AGGREGATE, '', OP_ADD, OP_ADD),
+                     (A_REDUCE, OP_FIRST), (A_REDUCE, OP_LAST)]),
+            'list': ([[i] for i in range(ln)],
+                     [(A_REDUCE, OP_ADD), (A_FOLD, [], OP_ADD), (A_FOLD, [], OP_EXTEND), (A_AGGREGATE, [], OP_EXTEND, OP_EXTEND)]),
+            'tuple': ([(i,) for i in range(ln)], [(A_REDUCE, OP_ADD), (A_FOLD, (), OP_ADD)]),
+            'int': (list(range(ln)), [(A_REDUCE, OP_FIRST), (A_REDUCE, OP_LAST), (A_AGGREGATE, [], OP_APPEND, OP_EXTEND),
+                                      (A_AGGREGATE, [[]], OP_INNER_APPEND, OP_INNER_EXTEND)]),
+        }
+        slices = sorted({n for n in (4, 5, 6, 7, 8) if n <= ln} | {ln, ln + 1, ln + 3, 12, 16})
+        for xs, acts in kinds.values():
+            for n in slices:
+                for ac in acts:
+                    cases.append((copy.deepcopy(xs), n, [], copy.deepcopy(ac)))
+            # explicit layouts: empties in between, unequal sizes, 4..8 non-empty partitions
+            for sizes in ([1, 0, 1, 1, 0, 0, 1] + [1] * (ln - 4), [2, 1, 0, 1] + [0, 1] * (ln - 4), [1] * ln + [0],
+                          [0] + [1] * (ln - 2) + [2], [ln - 3, 1, 1, 1]):
+                lay, k = [], 0
+                for sz in sizes:
+                    lay.append(copy.deepcopy(xs[k:k + sz]))
+                    k += sz
+                assert k == ln, (sizes, ln)
+                for ac in acts:
+                    cases.append((lay, [], copy.deepcopy(ac)))
+    return cases
+
+
 def generate(rng, tier):
     quick = tier == 'quick'
     cases = [copy.deepcopy(c) for c in REGRESSIONS]
+    cases += order_cases()               # head of the case stream (and of the search stream), both tiers
     # early: also the head of the search stream when an obligation breaks
     cases += sweep_cases(rng, tier)
     cases += layout_cases(rng, tier)
@@ -1120,6 +1155,22 @@ def extra_checks(rng, tier, workdir):
                     yield (f'{name}:nested-zero-value', f'{name}({z!r}, in-place merge), {n} slices', f'gave {got!r}, plain fold gives {want!r}', None)
                 elif zz != z:
                     yield (f'{name}:zero-mutated', f'{name}({z!r}, in-place merge), {n} slices', f'caller\'s zero is {zz!r} afterwards', None)
+    # treeReduce / treeAggregate with order-sensitive associative operators
+    for ln in range(4, 10):
+        for xs in ([chr(97 + i) for i in range(ln)], [[i] for i in range(ln)]):
+            want = functools.reduce(lambda a, b: a + b, xs)
+            for n in sorted({4, 5, 6, 7, 8, ln, ln + 2, 13}):
+                for name in ('treeReduce', 'treeAggregate'):
+                    try:
+                        rdd = Context().parallelize(copy.deepcopy(xs), n)
+                        if name == 'treeReduce':
+                            got = rdd.treeReduce(lambda a, b: a + b)
+                        else:
+                            got = rdd.treeAggregate(type(xs[0])(), lambda a, b: a + b, lambda a, b: a + b)
+                    except Exception as e:  # pylint: disable=broad-except
+                        got = Err(type(e).__name__)
+                    if got != want:
+                        yield (f'{name}:order', f'{name}(concat) of {xs!r} in {n} slices', f'gave {got!r}, plain reduce gives {want!r}', None)
     pairs = [(k % 3, k) for k in data]
     for z in ([[]], ([], [0])):
         want = {}
